@@ -903,4 +903,65 @@ theorem rx_glue (configured bufferSize : Nat) :
   unfold clampMaxRx
   by_cases hb : bufferSize = 0 <;> simp [hb] <;> omega
 
+/-! ### listener life cycle -/
+
+/-- no socket is registered for a listener that is not in the proxy's map
+    (what `RemoveListener` guarantees since it takes the socket) -/
+def LstWf (l : Lst) : Prop := l.inMap = false → l.socket = false
+
+theorem lstWf_step (k : Bool) (l : Lst) (op : LOp) (h : LstWf l) : LstWf (Lst.step k l op) := by
+  unfold LstWf at *
+  cases op <;> by_cases hm : l.inMap = true <;> by_cases hs : l.socket = true <;> simp_all [Lst.step]
+
+theorem lstWf_run (k : Bool) (ops : List LOp) : ∀ l, LstWf l → LstWf (Lst.run k l ops) := by
+  induction ops with
+  | nil => intro l h; exact h
+  | cons op ops ih => intro l h; exact ih _ (lstWf_step k l op h)
+
+theorem lst_removed_stays {k : Bool} (ops : List LOp) : ∀ (l : Lst), l.inMap = false → l.socket = false →
+    LOp.add ∉ ops → (Lst.run k l ops).ingests = false := by
+  induction ops with
+  | nil => intro l _ hs _; simp [Lst.run, Lst.ingests, hs]
+  | cons op ops ih =>
+    intro l hm hs hno
+    have hop : op ≠ .add := fun e => hno (by rw [e]; exact List.mem_cons_self)
+    have hrest : LOp.add ∉ ops := fun h => hno (List.mem_cons_of_mem _ h)
+    have hstep : Lst.step k l op = l := by
+      cases op <;> simp [Lst.step, hm] at hop ⊢
+    show (Lst.run k (Lst.step k l op) ops).ingests = false
+    rw [hstep]; exact ih l hm hs hrest
+
+theorem lst_removed_silent (k : Bool) (before after : List LOp) (hno : LOp.add ∉ after) :
+    (Lst.run k Lst.none (before ++ [.remove] ++ after)).ingests = false := by
+  have hrun : Lst.run k Lst.none (before ++ [.remove] ++ after) =
+      Lst.run k (Lst.step k (Lst.run k Lst.none before) .remove) after := by
+    simp [Lst.run, List.foldl_append]
+  rw [hrun]
+  have hwf : LstWf (Lst.run k Lst.none before) := lstWf_run k before _ (by intro _; rfl)
+  by_cases hm : (Lst.run k Lst.none before).inMap = true
+  · exact lst_removed_stays after _ (by simp [Lst.step, hm]) (by simp [Lst.step, hm]) hno
+  · have hm' : (Lst.run k Lst.none before).inMap = false := by simpa using hm
+    have hst : Lst.step k (Lst.run k Lst.none before) .remove = Lst.run k Lst.none before := by
+      simp [Lst.step, hm']
+    rw [hst]
+    exact lst_removed_stays after _ hm' (hwf hm') hno
+
+/-- under the token-keeping deactivate, a listener in the map always has its slab token -/
+theorem lst_token_kept (ops : List LOp) : ∀ l, (l.inMap = true → l.slabToken = true) →
+    ((Lst.run true l ops).inMap = true → (Lst.run true l ops).slabToken = true) := by
+  induction ops with
+  | nil => intro l h; exact h
+  | cons op ops ih =>
+    intro l h
+    apply ih
+    cases op <;> by_cases hm : l.inMap = true <;> by_cases hs : l.socket = true <;> simp_all [Lst.step]
+
+theorem lst_reactivation_partial (ops : List LOp) (hm : (Lst.run true Lst.none ops).inMap = true) :
+    (Lst.run true (Lst.run true Lst.none ops) [.deactivate, .activate]).ingests = true := by
+  have ht := lst_token_kept ops Lst.none (by intro h; cases h) hm
+  generalize Lst.run true Lst.none ops = l at hm ht
+  rcases l with ⟨m, sk, tk, se⟩
+  simp at hm ht; subst hm; subst ht
+  cases sk <;> simp [Lst.run, Lst.step, Lst.ingests]
+
 end Sozu.Udp
